@@ -47,7 +47,7 @@ async fn handshake_contract() {
         if is_static { peer.static_peer_config = Some(PeerConfig { host: "127.0.0.1".to_string(), port: 12101, protocol: "http".to_string(), synctype: "full".to_string() }); }
         if rng.below(3) == 0 { peer.public_key = Some(k1); }          // a peer object that has been authenticated before (reconnecting static peer)
         let (pk, sk) = if rng.below(2) == 0 { (k1, s1) } else { (k2, s2) };
-        let signed_challenge = match rng.below(3) { 0 => rng.arr::<32>(), _ => challenge };   // replayed / foreign challenge
+        let signed_challenge = match rng.below(4) { 0 => rng.arr::<32>(), 1 => [0u8; 32], _ => challenge };   // replayed / foreign / all-zero challenge
         let mut resp = response_for(signed_challenge, &sk, pk, my_core);
         if rng.below(6) == 0 { resp.signature[3] ^= 1; }
         if rng.below(6) == 0 { resp.core_version = Version::new(my_core.major, my_core.minor.wrapping_add(1), 0); }
